@@ -264,9 +264,22 @@ def exhaustive(rng):
     return out
 
 
+REQUIRED_SEED = 7070707
+_REQUIRED = None
+
+
+def required_stream():
+    """deterministic greedy cover of every requirement of sanity() (constant seed; prepended in both tiers)"""
+    global _REQUIRED
+    if _REQUIRED is None:
+        kept, left = F.greedy_required(lambda r: gen_case(r, "quick"), run, stats, problems, [], REQUIRED_SEED)
+        _REQUIRED = [dict(c, required=True) for c in kept]
+    return [dict(c) for c in _REQUIRED]
+
+
 def generate(rng, tier):
-    n = 800 if tier == "quick" else 20000
-    cases = [gen_case(rng, tier) for _ in range(n)]
+    n = 740 if tier == "quick" else 20000
+    cases = required_stream() + [gen_case(rng, tier) for _ in range(n)]
     if tier == "thorough":
         cases += exhaustive(rng)
     return cases
@@ -652,8 +665,18 @@ def stats(cases, obss):
 
 
 def sanity(cases, obss):
-    """Fail-closed distribution check (DESIGN 3.5)."""
-    d = stats(cases, obss)
+    """Fail-closed distribution check (DESIGN 3.5).  Every requirement is met by the deterministic required_stream()
+    alone (checked here too), so that the run's seed only drives the additional random stream."""
+    req = [(c, o) for c, o in zip(cases, obss) if isinstance(c, dict) and c.get("required")]
+    probs = problems(stats(cases, obss))
+    if req:
+        probs += ["required stream alone: " + p_ for p_ in problems(stats([c for c, _ in req], [o for _, o in req]))]
+    else:
+        probs.append("the deterministic required stream is missing")
+    return probs
+
+
+def problems(d):
     probs = []
     if not d["total"]:
         return ["no case was run"]
